@@ -473,10 +473,20 @@ class ProceduralResolver:
 			if actual_receiver.type_is(tuple):
 				# a slice of a tuple keeps the elements inside the bounds; only literal (or omitted) bounds are known here
 				lower, upper, step = (key.node for key in keys)
-				bounds_known = all(isinstance(bound, (defs.Integer, defs.Empty)) for bound in (lower, upper)) and isinstance(step, defs.Empty)
-				if bounds_known:
-					begin = lower.as_a(defs.Integer).as_int if isinstance(lower, defs.Integer) else None
-					end = upper.as_a(defs.Integer).as_int if isinstance(upper, defs.Integer) else None
+
+				def literal_bound(bound: Node) -> tuple[bool, int | None]:
+					# an omitted bound, an integer literal, or a signed integer literal (`t[-1:]`, `t[:-1]`)
+					if isinstance(bound, defs.Empty):
+						return True, None
+					elif isinstance(bound, defs.Integer):
+						return True, bound.as_int
+					elif isinstance(bound, defs.Factor) and bound.operator.tokens in ('-', '+') and isinstance(bound.value, defs.Integer):
+						return True, -bound.value.as_int if bound.operator.tokens == '-' else bound.value.as_int
+					else:
+						return False, None
+
+				(lower_known, begin), (upper_known, end) = literal_bound(lower), literal_bound(upper)
+				if lower_known and upper_known and isinstance(step, defs.Empty):
 					return actual_receiver.to(node, self.reflections.from_standard(tuple)).extends(*actual_receiver.attrs[begin:end])
 
 			return actual_receiver.stack(node)
